@@ -31,7 +31,7 @@ def build_surface(rng, names, variant, opus_label=None):
         pos += (ln + 255) // 256
     if variant == 'opus':
         vols = []
-        labels = 'ABCDEFGH'[:rng.randint(2, 8)] if opus_label is None else 'ABCDEFGH'[:max(2, 'ABCDEFGH'.index(opus_label) + 1)]
+        labels = 'ABCDEFGH'[:rng.choice([1, 1, 2, 3, rng.randint(1, 8)])] if opus_label is None else 'ABCDEFGH'[:max(2, 'ABCDEFGH'.index(opus_label) + 1)]
         tracks = 40
         starts = sorted(rng.sample(range(2, tracks), len(labels) - 1))
         starts = [1] + starts
@@ -155,7 +155,9 @@ def case(spec):
             # qualification
             cur_dir = rng.choice(['$'] + dirs_present + ['K'])
             cur_drive = 0
-            cur_vol = target_vol if (target_vol and rng.random() < 0.5) else None
+            # on an Opus disc a drive without a volume letter means volume A (however many volumes there are)
+            bare = target_vol == 'A' and rng.random() < 0.6
+            cur_vol = target_vol if (target_vol and not bare and rng.random() < 0.5) else None
             q = rng.random()
             dirpat = None
             if q < 0.35:
@@ -163,9 +165,11 @@ def case(spec):
             pat = namepat
             if dirpat is not None:
                 pat = dirpat + '.' + pat
-            explicit_drive = rng.random() < 0.35 or (target_vol and cur_vol is None)
+            explicit_drive = rng.random() < 0.35 or (target_vol and cur_vol is None and not bare)
             if explicit_drive:
-                pat = ':0%s.%s' % (target_vol or '', pat)
+                pat = ':0%s.%s' % ('' if bare else (target_vol or ''), pat)
+            if bare:
+                res.add('opus_volume_A_by_bare_drive_number', 1)
             pre = []
             if cur_dir != '$' or rng.random() < 0.2:
                 pre += ['--dir', cur_dir]
@@ -175,7 +179,7 @@ def case(spec):
                 # a presentation option after (or before) the context options must not disturb them
                 uo = ['--ui', rng.choice(['acorn', 'watford', 'opus'])]
                 pre = pre + uo if rng.random() < 0.7 else uo + pre
-            if not explicit_drive and target_vol and not cur_vol:
+            if not explicit_drive and target_vol and not cur_vol and not bare:
                 continue
             parsed = rm.parse_afsp(pat, 0, cur_dir)
             if parsed is None:
@@ -284,7 +288,12 @@ def case(spec):
             if cur_dir != '$':
                 pre += ['--dir', cur_dir]
             dv = '0' + (target_vol or '')
-            if target_vol and rng.random() < 0.5:
+            if target_vol == 'A' and rng.random() < 0.6:
+                # no letter anywhere: drive 0 of an Opus disc means volume A
+                dv = '0'
+                implicit_drive = True
+                res.add('opus_volume_A_by_bare_drive_number', 1)
+            elif target_vol and rng.random() < 0.5:
                 pre += ['--drive', dv]
                 implicit_drive = True
             else:
@@ -302,6 +311,11 @@ def case(spec):
             args = [cmd, '--binary', sp] if cmd == 'type' else [cmd, sp]
             if cmd == 'type' and rng.random() < 0.25:
                 args = ['type', sp]
+            if nm.startswith('-') and e.dir == cur_dir and implicit_drive and rng.random() < 0.7:
+                # a leaf name that looks like an option: the documented `--` marker ends the options of type
+                args = ['type', '--binary', '--', nm]
+                cmd, sp = 'type', nm
+                res.add('names_after_double_dash', 1)
             r_ = dfs(dfsbin, path, args, pre=pre)
             res.execs += 1
             if screen(res, r_, PROP, cmd, files):
